@@ -22,6 +22,9 @@ CTX = {}
 
 
 def gen_case(rng):
+    if rng.random() < 0.25:
+        return {'kind': 'samenode', 'mode': 'addwrite', 'k': rng.choice([1, 2, 3]), 'ticks': 4,
+                'state': rng.choice([7, 0, 30]), 'delta': rng.choice([1, 5]), 'two_ports': rng.random() < 0.5}
     return {'kind': 'samenode', 'mode': rng.choice(['process', 'steps']), 'k': rng.choice([1, 2, 3]),
             'ticks': rng.choice([4, 5]), 'masses': {'a': rng.choice([3, 7]), 'b': rng.choice([10, 20])},
             'reader_ts': rng.choice([1, 1, 2]), 'depth': rng.choice([0, 0, 2])}
@@ -29,6 +32,10 @@ def gen_case(rng):
 
 def corpus():
     return [
+        # one update adds a child and carries a value for it (through the same port, or through a second port wired
+        # to the same store): the child starts from its state and the value is applied to it
+        {'kind': 'samenode', 'mode': 'addwrite', 'k': 2, 'ticks': 4, 'state': 7, 'delta': 1, 'two_ports': False},
+        {'kind': 'samenode', 'mode': 'addwrite', 'k': 1, 'ticks': 3, 'state': 0, 'delta': 5, 'two_ports': True},
         {'kind': 'samenode', 'mode': 'process', 'k': 2, 'ticks': 5, 'masses': {'a': 7, 'b': 20}, 'reader_ts': 1,
          'depth': 0},
         {'kind': 'samenode', 'mode': 'steps', 'k': 2, 'ticks': 4, 'masses': {'a': 7, 'b': 20}, 'reader_ts': 1,
@@ -140,7 +147,48 @@ def _classes():
     return ReaperP, Census, Clock, ReaperS, Seeder, Feeder
 
 
+def _run_addwrite(case):
+    from vivarium.core.engine import Engine
+    from vivarium.core.process import Process
+
+    class Adder(Process):
+        def __init__(self, parameters=None):
+            super().__init__(parameters)
+            self.n = 0
+
+        def ports_schema(self):
+            sch = {'cells': {'*': {'mass': {'_default': 0, '_emit': True}}}}
+            if case['two_ports']:
+                sch['again'] = {'*': {'mass': {'_default': 0, '_emit': True}}}
+            return sch
+
+        def next_update(self, timestep, states):
+            self.n += 1
+            if self.n != case['k']:
+                return {}
+            add = {'_add': [{'key': 'n', 'state': {'mass': case['state']}}]}
+            write = {'n': {'mass': case['delta']}, 'b': {'mass': case['delta']}}
+            if case['two_ports']:
+                return {'cells': add, 'again': write}
+            return {'cells': dict(add, **write)}
+    obs = {}
+    try:
+        topo = {'cells': ('cells',)}
+        if case['two_ports']:
+            topo['again'] = ('cells',)
+        eng = Engine(processes={'adder': Adder()}, topology={'adder': topo},
+                     initial_state={'cells': {'b': {'mass': 10}}}, display_info=False, progress_bar=False)
+        eng.update(case['ticks'])
+        obs['rows'] = [[int(round(t)), {k: v.get('mass') for k, v in (r.get('cells') or {}).items()}]
+                       for t, r in sorted(eng.emitter.get_data().items())]
+    except Exception as e:  # noqa
+        obs['raised'] = f'{type(e).__name__}: {str(e)[:200]}'
+    return obs
+
+
 def run_impl(case):
+    if case.get('mode') == 'addwrite':
+        return _run_addwrite(case)
     from vivarium.core.engine import Engine
     from vivarium.core.emitter import Emitter
     from vivarium.core.registry import emitter_registry
@@ -200,6 +248,17 @@ def oracle(case, impl):
         return []
     if impl.get('raised'):
         return [f'engine-raised: {impl["raised"]}']
+    if case.get('mode') == 'addwrite':
+        for t, cells in impl['rows']:
+            want = {'b': 10 + (case['delta'] if t >= case['k'] else 0)}
+            if t >= case['k']:
+                want['n'] = case['state'] + case['delta']
+            if cells != want:
+                return [f'add-and-write: at tick {case["k"]} one update adds child n with mass {case["state"]} and '
+                        f'adds {case["delta"]} to n and to b' + (' (through a second port on the same store)'
+                                                                  if case['two_ports'] else '')
+                        + f'; the row at t={t} holds {cells}, expected {want}']
+        return []
     fails = []
     log = impl['log']
     rows = {ev['t']: ev['cells'] for ev in log if ev['e'] == 'emit'}
